@@ -103,6 +103,14 @@ def _invoke(case, c, operands):
 
 
 def generate_form(case):
+    """Called twice; the first result is edited in place by its owner, the second must be unaffected."""
+    first = _generate_form_once(case)[0]
+    if first.outputs:
+        first.set_outputs(list(first.outputs)[:1])
+    return _generate_form_once(case)
+
+
+def _generate_form_once(case):
     """The generate_* wrappers: returns (circuit, out_pairs, in_pairs)."""
     fn = case["fn"]
     b = basis_obj(case.get("basis", "enum:XAIG"))
